@@ -4,7 +4,7 @@
    NestingProofs.v, DivGuardProofs.v, SteppingProofs.v:
    (a) the arithmetic of every copy into a fixed `char NAME[N]` buffer, against the list of
        (buffer, writing statement) sites regenerated from /repo/src on every run;
-   (b) the nesting depth of the recursive-descent expression parser;
+   (b) the nesting depth and the length of what the recursive-descent expression parser accepts;
    (c) the zero tests in front of every division cell of the amount/balance/value model;
    (d) the variant of the period-stepping loop and the guard that makes it apply.
    Property theorems only. *)
@@ -17,14 +17,24 @@ Local Open Scope Z_scope.
 
 (* ================= (a) bounded copies ================= *)
 
-(* every site of the current source - except the two findings refuted below - stores at most
-   `capacity` bytes, whatever the length n of the text it copies.  Unbounded in n; the site list
-   is finite and regenerated from the source, so shrinking a buffer, raising a bound or
-   dropping a guard in the C++ makes this theorem fail. *)
+(* every site of the current source stores at most `capacity` bytes, whatever the length n of the
+   text it copies.  Unbounded in n; the site list is finite and regenerated from the source, so
+   shrinking a buffer, raising a bound or dropping a guard in the C++ makes this theorem fail.
+   (Before their repair two sites failed it: find_option wrote 129 bytes into buf[128] for a
+   127-character option name, prompt_string wrote n + 2 bytes into prompt[32] for n pushed reports.) *)
 Theorem all_sites_in_bounds :
-  Forall (fun s => forall n, 0 <= n -> extent (swrite s) n <= capacity s) checked_sites.
+  Forall (fun s => forall n, 0 <= n -> extent (swrite s) n <= capacity s) sites.
 Proof. exact all_sites_in_bounds_proof. Qed.
 Print Assumptions all_sites_in_bounds.
+
+(* the repaired sites have exactly the guarded shapes the repairs introduced *)
+Theorem repaired_sites_guarded :
+  map (fun s => (capacity s, swrite s))
+      (filter (fun s => String.eqb (sname s) "option.cc:find_option:buf" ||
+                        String.eqb (sname s) "global.cc:prompt_string:prompt") sites)
+  = [ (32, IndexLoopBounded 30 2); (128, CopyGuarded 126 2) ].
+Proof. exact repaired_sites_proof. Qed.
+Print Assumptions repaired_sites_guarded.
 
 (* the scanner classified every statement that names a fixed buffer (fail closed) *)
 Theorem all_sites_recognised : forallb recognised sites = true.
@@ -42,8 +52,8 @@ Theorem anchored_sites_present :
       "item.cc:parse_tags:buf"; "token.cc:parse_ident:buf"; "token.cc:next:buf";
       "token.cc:parse_reserved_word:buf"; "times.cc:parse_date_mask_routine:buf";
       "times.cc:parse_datetime:buf"; "textual.cc:parse_post:buf";
-      "textual.cc:general_directive:buf"; "account.cc:find_account:buf";
-      "option.cc:find_option:buf" ]%string = true.
+      "textual.cc:general_directive:buf"; "option.cc:find_option:buf";
+      "global.cc:prompt_string:prompt" ]%string = true.
 Proof. exact anchored_sites_present_proof. Qed.
 Print Assumptions anchored_sites_present.
 
@@ -72,59 +82,71 @@ Theorem line_reader_in_bounds :
 Proof. intros inp. apply getline_store_le. vm_compute. discriminate. Qed.
 Print Assumptions line_reader_in_bounds.
 
-(* findings: two sites of the unchanged tree overrun their buffer *)
-Theorem site_prompt_string_refuted :
-  exists s n, In s sites /\ sname s = "global.cc:prompt_string:prompt"%string /\
-              0 <= n /\ capacity s < extent (swrite s) n.
-Proof. exact prompt_site_overruns. Qed.
-Print Assumptions site_prompt_string_refuted.
-
-Theorem site_find_option_refuted :
-  exists s n, In s sites /\ sname s = "option.cc:find_option:buf"%string /\
-              0 <= n /\ capacity s < extent (swrite s) n.
-Proof. exact option_site_overruns. Qed.
-Print Assumptions site_find_option_refuted.
-
 (* ================= (b) recursion depth ================= *)
 
-(* what the source's guard (or its absence) implies: with a bound L every accepted expression
-   nests at most L deep; with no bound every depth is reached by some accepted input *)
-Theorem parse_depth_of_source :
-  match src_parse_depth_limit with
-  | Some L => 0 <= L -> forall ts d, parse_depth (Some L) ts = Ok d -> d <= L
-  | None => forall n, exists ts d, parse_depth None ts = Ok d /\ n <= d
-  end.
-Proof.
-  destruct src_parse_depth_limit as [L|].
-  - intros HL ts d. apply parse_depth_le_limit_proof. exact HL.
-  - exact parse_depth_unbounded_proof.
-Qed.
-Print Assumptions parse_depth_of_source.
-
-Theorem parse_depth_unbounded :
-  forall n, exists ts d, parse_depth None ts = Ok d /\ n <= d.
-Proof. exact parse_depth_unbounded_proof. Qed.
-Print Assumptions parse_depth_unbounded.
-
+(* the source bounds the nesting of parenthesised sub-expressions (parser.cc parse_value_term,
+   constant picked up by the translator): every accepted expression nests at most that deep, so
+   the parser's stack need is at most frames_per_level * (L + 1) frames *)
 Theorem parse_depth_le_limit :
+  exists L, src_parse_depth_limit = Some L /\ 0 <= L /\
+    forall ts d, parse_depth src_parse_depth_limit ts = Ok d -> d <= L /\ stack_frames d <= stack_frames L.
+Proof.
+  destruct src_parse_depth_limit as [L|] eqn:E; [|discriminate].
+  exists L. split; [reflexivity|]. assert (HL : 0 <= L) by (injection E as <-; lia).
+  split; [exact HL|]. intros ts d H.
+  pose proof (parse_depth_le_limit_proof L ts d HL H) as Hd. split; [exact Hd|].
+  unfold stack_frames, frames_per_level. lia.
+Qed.
+Print Assumptions parse_depth_le_limit.
+
+Theorem parse_depth_le_any_limit :
   forall L ts d, 0 <= L -> parse_depth (Some L) ts = Ok d -> d <= L.
 Proof. exact parse_depth_le_limit_proof. Qed.
-Print Assumptions parse_depth_le_limit.
+Print Assumptions parse_depth_le_any_limit.
 
 Theorem over_limit_nesting_rejected :
   forall L n, 0 <= L -> L < Z.of_nat n -> exists e, parse_depth (Some L) (nest n) = Err e.
 Proof. exact nest_rejected_over_limit. Qed.
 Print Assumptions over_limit_nesting_rejected.
 
-(* finding F4: the source has no bound, so no stack size is enough for every accepted
-   expression (each level costs frames_per_level C++ frames) *)
-Theorem bounded_parse_stack_refuted :
-  src_parse_depth_limit = None ->
-  forall B, exists ts d, parse_depth src_parse_depth_limit ts = Ok d /\ B < stack_frames d.
+(* why the guard is needed (the behaviour of the source before the repair, kept as a statement
+   about the model WITHOUT a limit): every depth is reached by some accepted input *)
+Theorem unguarded_parse_depth_unbounded :
+  forall n, exists ts d, parse_depth None ts = Ok d /\ n <= d.
+Proof. exact parse_depth_unbounded_proof. Qed.
+Print Assumptions unguarded_parse_depth_unbounded.
+
+(* the length bound of parser.h next_token: an accepted expression stays within both limits of
+   the source; the tokens it consumed plus the one that ends it are at most the token limit, which
+   bounds the depth of the operator tree that compile / calc / the destructor descend *)
+Theorem accepted_expression_within_limits :
+  exists L T, src_parse_depth_limit = Some L /\ src_expr_token_limit = Some T /\
+    forall ts d, parse_guarded src_parse_depth_limit src_expr_token_limit ts = Ok d ->
+      d <= L /\ consumed src_parse_depth_limit ts + 1 <= T.
 Proof.
-  intros H B. destruct src_parse_depth_limit; [discriminate | apply stack_need_unbounded_proof].
+  destruct src_parse_depth_limit as [L|] eqn:E1; [|discriminate].
+  destruct src_expr_token_limit as [T|] eqn:E2; [|discriminate].
+  exists L, T. repeat split; try reflexivity;
+    assert (HL : 0 <= L) by (injection E1 as <-; lia);
+    destruct (parse_guarded_both_limits L T ts d HL H); assumption.
 Qed.
-Print Assumptions bounded_parse_stack_refuted.
+Print Assumptions accepted_expression_within_limits.
+
+Theorem long_chain_rejected :
+  forall T k, T < 2 * Z.of_nat k + 2 -> parse_guarded None (Some T) (chain k) = Err EOther.
+Proof. exact chain_rejected_over_limit. Qed.
+Print Assumptions long_chain_rejected.
+
+Theorem chain_within_limit_accepted :
+  forall T k, 2 * Z.of_nat k + 2 <= T -> parse_guarded None (Some T) (chain k) = Ok 0.
+Proof. exact chain_accepted_within_limit. Qed.
+Print Assumptions chain_within_limit_accepted.
+
+(* why that guard is needed: without it expressions of every length are accepted *)
+Theorem unguarded_expression_length_unbounded :
+  forall n, exists ts d, parse_guarded None None ts = Ok d /\ n <= consumed None ts.
+Proof. exact expression_length_unbounded_proof. Qed.
+Print Assumptions unguarded_expression_length_unbounded.
 
 (* ================= (c) division ================= *)
 
@@ -198,14 +220,36 @@ Print Assumptions day_period_start_closed_form.
 (* ================= the guards the theorems rely on are in the source ================= *)
 Theorem source_guards_present :
   src_period_zero_guard = true /\ src_int_div_guard = true /\ src_line_too_long_guard = true /\
-  src_asserts_throw = true /\ src_read_into_as_modelled = true /\ src_line_getline = src_max_line.
+  src_asserts_throw = true /\ src_read_into_as_modelled = true /\ src_line_getline = src_max_line /\
+  (* guards added by the repairs of F42 F47 F39 F43 F45 *)
+  src_conversion_cycle_guard = true /\ src_expr_argument_guard = true /\ src_script_loop_guard = true /\
+  src_no_xact_journal_master = true /\ src_find_account_no_frame_buffer = true.
 Proof. repeat split; reflexivity. Qed.
 Print Assumptions source_guards_present.
 
+(* the numeric limits added by the repairs of F44 and F49 are present; `within_limit` is the
+   guard `if (n > limit) throw` they share: a value is let through iff it is at most the limit *)
+Theorem numeric_limits_present :
+  exists QD QT RP, src_query_depth_limit = Some QD /\ src_query_term_limit = Some QT /\
+    src_roundto_places_limit = Some RP /\ 0 < QD /\ 0 < QT /\ 0 < RP /\
+    forall n, (within_limit src_query_depth_limit n = true <-> n <= QD) /\
+              (within_limit src_query_term_limit n = true <-> n <= QT) /\
+              (within_limit src_roundto_places_limit n = true <-> n <= RP).
+Proof.
+  destruct src_query_depth_limit as [QD|] eqn:E1; [|discriminate].
+  destruct src_query_term_limit as [QT|] eqn:E2; [|discriminate].
+  destruct src_roundto_places_limit as [RP|] eqn:E3; [|discriminate].
+  exists QD, QT, RP.
+  injection E1 as <-. injection E2 as <-. injection E3 as <-.
+  repeat split; try reflexivity; try lia; cbn [within_limit]; try apply Z.leb_le.
+Qed.
+Print Assumptions numeric_limits_present.
+
 (* non-vacuity *)
-Example nest_three : parse_depth None (nest 3) = Ok 3.
+Example nest_three : parse_depth src_parse_depth_limit (nest 3) = Ok 3.
 Proof. reflexivity. Qed.
-Example ops_do_not_nest : parse_depth None [TVal; TOp; TLp; TVal; TOp; TVal; TRp; TOp; TVal] = Ok 1.
+Example ops_do_not_nest :
+  parse_guarded src_parse_depth_limit src_expr_token_limit [TVal; TOp; TLp; TVal; TOp; TVal; TRp; TOp; TVal] = Ok 1.
 Proof. reflexivity. Qed.
 Example month_steps_exist : month_step_ok (fun _ k => 30 * k).
 Proof. intros d k Hk. lia. Qed.
